@@ -1000,7 +1000,7 @@ def tie(ctx):
         if "case" in rp:
             corpus.append(rp["case"])
 
-    secs = [f(ctx, fixed, corpus) for f in (_sec0, _sec1, _sec2, _sec3, _sec4, _sec5, _sec_named)]
+    secs = [f(ctx, fixed, corpus) for f in (_sec0, _sec1, _sec2, _sec3, _sec4, _sec5, _sec_named, _sec_frozen)]
     all_lines, spans = [], []
     for g in secs:
         try:
@@ -1395,6 +1395,86 @@ def _sec5(ctx, fixed, corpus):
                           {"case": {"kind": "comp", "n": nlen, "es": es}, "real": out, "oracle": want})
         if out != model:
             ctx.broke(f"correspondence: comprehension fold on `{line}`: python={out} lean={model}")
+
+
+class _FrozenShim(list):
+    def __getitem__(self, i):
+        i = int(i) % M64  # itousize
+        if i >= len(self):
+            raise Panic("unwrapFail Frozenarray index out of bounds")
+        return list.__getitem__(self, i)
+
+
+def _sec_frozen(ctx, fixed, corpus):
+    """T-exec: the real FrozenarrayIter.__next__ from /repo under CPython vs the Lean `fnext`; full drains vs the list itself"""
+    import c19_ssa as S
+    rng = ctx.rng
+    try:
+        from guppylang_internals.engine import DEF_STORE
+        import guppylang.std.array as am
+        raw = DEF_STORE.raw_defs
+        fields = list(getattr(raw[am.FrozenarrayIter.id].python_class, "__annotations__", {}))
+        NOTHING = _Nothing()
+
+        class FrozenarrayIter:
+            def __init__(self, *args):
+                for f, a in zip(fields, args, strict=True):
+                    setattr(self, f, a)
+
+        g = {"FrozenarrayIter": FrozenarrayIter, "some": _Some, "nothing": lambda: NOTHING, "int": int, "n": 0, "__builtins__": {}}
+        f0 = raw[DEF_STORE.impls[am.FrozenarrayIter.id]["__next__"]].python_func
+        next_fn = types.FunctionType(f0.__code__, g, f0.__name__, f0.__defaults__, None)
+    except Exception as e:  # noqa: BLE001
+        ctx.broke(f"T-exec: cannot rebuild FrozenarrayIter.__next__ from /repo: {type(e).__name__}: {e}")
+        return
+
+    def call(xs, i):
+        g["n"] = len(xs)
+        try:
+            r = next_fn(FrozenarrayIter(_FrozenShim(xs), _I(i)))
+        except Panic as p_:
+            parts = str(p_).split(" ", 1)
+            return "panic unwrapFail " + S.sexp_atom(parts[1]) if parts[0] == "unwrapFail" else "panic " + str(p_)
+        except Exception as e:  # noqa: BLE001
+            return "exception:" + type(e).__name__
+        if r is NOTHING:
+            return "ok none"
+        if isinstance(r, _Some):
+            elem, it = r.v
+            return f"ok some {elem} {int(getattr(it, fields[1]))}"
+        return "exception:result"
+
+    lines, metas = [], []
+    for _ in range(ctx.n(100, 5000)):
+        xs = [rng.randrange(0, 100) for _ in range(rng.choice([0, 1, 1, 2, 3, 5]))]
+        i = gen_index(rng, len(xs))
+        metas.append((xs, i))
+        lines.append(f"(fnext ({' '.join(map(str, xs))}) {i})")
+    reps = yield lines
+    for (xs, i), line, model in zip(metas, lines, reps):
+        real = call(xs, i)
+        ctx.count(line, nontrivial=not (0 <= i < len(xs)), kind="fnext:" + real.split(" ")[1] if real.startswith("ok") else "fnext:panic")
+        if real != model:
+            ctx.broke(f"T-exec: FrozenarrayIter.__next__ from /repo vs Lean model on `{line}`: real={real} model={model}")
+    for _ in range(ctx.n(20, 500)):  # full drains: every element, in order, exactly once
+        xs = [rng.randrange(0, 100) for _ in range(rng.choice([0, 1, 2, 3, 5, 8]))]
+        got, i, out = [], 0, None
+        for _k in range(len(xs) + 2):
+            r = call(xs, i)
+            if r == "ok none":
+                out = got
+                break
+            if not r.startswith("ok some"):
+                out = r
+                break
+            _, _, v, i2 = r.split(" ")
+            got.append(int(v))
+            i = int(i2)
+        ctx.count({"fdrain": xs}, nontrivial=len(xs) >= 1, kind="fdrain")
+        if out != xs:
+            ctx.violation(f"input:iterate frozenarray xs={xs}", f"iterating the real FrozenarrayIter.__next__ over frozenarray {xs} "
+                          f"yields {out}, expected every element in order: {xs}",
+                          {"case": {"kind": "fdrain", "xs": xs}, "real": repr(out), "oracle": repr(xs)})
 
 
 def _sec_named(ctx, fixed, corpus):
